@@ -326,6 +326,24 @@ Definition io_get (x : string) : IO (world S) gv := fun w =>
   match assoc_s x (w_store w) with Some v => (Ok v, w) | None => (Raise EUnbound, w) end.
 End ReaderIO.
 
+(* self._socket.recv(n): the next recv() result, data or OSError / TimeoutError (one exception in this layer: EOther) *)
+Section SockIO.
+Context {S : Type}.
+Variable rcv : S -> result bytes * S.
+Definition io_recv (n : gv) : IO (world S) gv := fun w =>
+  match n with
+  | V (PInt _) =>
+      let '(r, s') := rcv (w_stream w) in
+      (match r with Ok d => Ok (gbytes d) | Raise e => Raise e end,
+       {| w_stream := s'; w_eff := w_eff w; w_store := w_store w |})
+  | _ => (Raise EType, w)
+  end.
+End SockIO.
+
+(* bytes(x) for a bytes / bytearray x *)
+Definition g_bytes_conv (a : gv) : result gv :=
+  match a with V (PBytes b) => Ok (gbytes b) | _ => Raise EOther end.
+
 (* (a, b) = e *)
 Definition g_unpack2 (a : gv) : result (gv * gv) :=
   match a with Tup [x; y] => Ok (x, y) | _ => Raise EType end.
